@@ -152,9 +152,10 @@ def sc_c11(name, seed, counts, tier):
         rd = rng.choice([BCAST, OWN])
         f = header(rng.choice([0, 1, 2]), op, rd, m, rd, m, 9) + struct.pack(">HH", 7, 1) + OWN
         lines.append("CLASSIFY %d 0 %s" % (len(f), f.hex()))
-    for ln in (0, 14, 31, 32, 33, 35, 36, 41, 42):
-        f = discover(0, m, gen=7, seq=9, stations=[OWN])
-        lines.append("CLASSIFY %d 0 %s" % (ln, f[:ln].hex() or "-"))
+    for ln in (0, 14, 31, 32, 33, 34, 35, 36, 37, 41, 42, 47, 48):
+        f = discover(0, m, gen=7, seq=9, stations=[OWN, key_mac(9)])
+        for fill in (0, 0xFF, 1):      # what the rest of the receive buffer happens to hold
+            lines.append("CLASSIFY %d %d %s" % (ln, fill, f[:ln].hex() or "-"))
     return Scenario(name, lines)
 
 
